@@ -195,10 +195,37 @@ REFINE_OF = {
 }
 
 
+READER_OF = {
+    "C04": r"Reader_(open$|.*provenance|example)",
+    "C19": r"Reader_(frame|open_is_rp_open)",
+    "C01": r"Reader_(fsr_loop_window|fsr_provenance)",
+    "C10": r"Reader_(.*out_of_fuel|termination_refuted)",
+}
+
+
 def collect_obligations(ctx, vfile):
     path = os.path.join(COQ, vfile)
     names = [m.group(2) for m in THM_RE.finditer(open(path).read())]
-    rc, out = sh(["timeout", "900", "coqc", "-Q", ".", "JLS", vfile], cwd=COQ, timeout=1000)
+    # the Print Assumptions output of a Properties file is a function of the file and of the compiled development: it is re-used as long
+    # as no .vo of the development has been rebuilt since (make has just brought them up to date) and the file itself is unchanged
+    import hashlib
+    vos = glob.glob(os.path.join(COQ, "*.vo"))
+    key = "%s|%.3f|%d" % (hashlib.sha1(open(path, "rb").read()).hexdigest(), max([os.path.getmtime(v) for v in vos] or [0]), len(vos))
+    cdir = os.path.join(BUILD, "pa_cache")
+    os.makedirs(cdir, exist_ok=True)
+    cfile = os.path.join(cdir, vfile + ".json")
+    cached = None
+    if os.path.exists(cfile):
+        try:
+            cached = json.load(open(cfile))
+        except Exception:
+            cached = None
+    if cached and cached.get("key") == key and cached.get("rc") == 0:
+        rc, out = cached["rc"], cached["out"]
+    else:
+        # (-o: the compiled file goes to the cache directory, the .vo files of the development are not touched)
+        rc, out = sh(["timeout", "900", "coqc", "-Q", ".", "JLS", "-o", os.path.join(cdir, vfile[:-2] + ".vo"), vfile], cwd=COQ, timeout=1000)
+        json.dump({"key": key, "rc": rc, "out": out}, open(cfile, "w"))
     ok = rc == 0
     # Print Assumptions output blocks appear in order
     blocks = re.split(r"(?m)^(?=Closed under the global context|Axioms:)", out)
@@ -206,6 +233,8 @@ def collect_obligations(ctx, vfile):
     for i, n in enumerate(names):
         if vfile == "Properties_gen.v" and not n.startswith(ctx.prop + "_"):
             continue      # the file holds the generated-model theorems of several properties; each check lists its own
+        if vfile == "Properties_reader.v" and not re.match(READER_OF.get(ctx.prop, "^$"), n):
+            continue      # byte-level reader model: provenance (C04), no write path (C19), FSR window (C01), termination (C10)
         if vfile == "Properties_refine.v" and not re.match(REFINE_OF.get(ctx.prop, "^$"), n):
             continue      # refinement glue (byte-exact writer model -> component models): each check lists the part about its component
         ax = None
